@@ -17,7 +17,7 @@ RULE = ('seeded generator: non-negative images 1..40 per side of any aspect rati
 ASSUMPTIONS = ['a reference convolution whose minimum is above -1e-12*max counts as non-negative']
 PLAN = {'quick': {'gen': 8}, 'thorough': {'gen': 16, 'tests': 1, 'docs': 1}}
 REQUIRED_BUCKETS = ['img:all-zero', 'extent:numpy-scalars', 'img:reduced-precision', 'angle:numpy-integer', 'img:faint', 'img:bright', 'pixel', 'jitter', 'smear', 'shape:square', 'shape:nonsquare', 'shape:odd', 'shape:even', 'img:smooth',
-                    'img:spiky', 'conv:nonneg', 'extent:0', 'translate', 'units', 'sequence', 'img:integer', 'extent:small-int*oversample', 'args:positional']
+                    'img:spiky', 'conv:nonneg', 'extent:0', 'translate', 'units', 'sequence', 'img:integer', 'extent:small-int*oversample', 'args:positional', 'oversample:fractional', 'extent:small-fraction-of-a-pixel']
 REQUIRED_ANCHORS = ['probe:pixel', 'probe:jitter', 'probe:smear']
 REQUIRED_ORACLES = ['blur:shape', 'blur>=0', 'blur=conv', 'blur:total', 'translate', 'identity', 'units', 'homogeneous']
 
@@ -61,6 +61,13 @@ def make_oracle(kind):
             ctx.skip('smear with a random angle (no reference)')
             if exc is None:
                 ctx.check(np.shape(result) == img.shape, 'blur:shape', 'smear|random-angle|shape', 'shape changed', wit)
+            return
+        try:
+            frac_os = float(p['oversample']) != int(p['oversample'])
+        except Exception:
+            frac_os = False
+        if exc is not None and frac_os and isinstance(exc, (TypeError, ValueError)):
+            ctx.skip('fractional oversampling factor refused (documented as an integer)')
             return
         if exc is not None:
             ctx.check(False, 'blur:shape', f'{kind}|raises={type(exc).__name__}' + ('|nonsquare' if img.shape[0] != img.shape[1] else ''),
@@ -209,6 +216,17 @@ def workload(ctx, lentil):
                 os_ = 1          # a 1-sample pixel on a critically sampled image: sinc(f) on |f| <= 1/2 (not the identity)
             call = lambda im: lentil.detector.pixel(im, oversample=os_) if os_ != 1 or rng.random() < 0.5 else lentil.detector.pixel(im)
             par = {'oversample': os_}
+        if kind != 'pixel' and i % 10 == 7 and not zero:
+            # heavily oversampled frames and extents of a small fraction of a pixel: small in pixels, not in samples
+            os_ = int(rng.choice([8, 16, 25, 50]))
+            ext = float(10 ** rng.uniform(-2.5, -0.5)) * (os_ if rng.random() < 0.5 else 1.0)
+            bks.append('extent:small-fraction-of-a-pixel')
+        if kind != 'pixel' and i % 8 == 5:
+            # a ratio of two pixel scales as the oversampling factor (2.5, 0.5): where it is accepted it is a factor like any other
+            os_ = [1.5, 2.5, 0.5, 3.25, np.float64(1.25), np.float32(0.75)][(i // 8) % 6]
+            bks.append('oversample:fractional')
+        if kind == 'pixel':
+            pass
         elif kind == 'jitter':
             sc = ext / os_ * ps
             call = lambda im: lentil.jitter(im, sc, pixelscale=ps, oversample=os_)
